@@ -39,7 +39,7 @@ pub fn gen_kind(ch: &mut Chooser) -> Kind {
     Kind { layer, engine }
 }
 
-fn slow_engine(e: EngineKind) -> bool {
+pub fn slow_engine(e: EngineKind) -> bool {
     matches!(e, EngineKind::Naive | EngineKind::Lockstep | EngineKind::NeonEmu)
 }
 
@@ -54,7 +54,7 @@ fn gen_config_for(ch: &mut Chooser, kind: Kind) -> (usize, usize, usize) {
     }
 }
 
-fn other_engine(kind: Kind, ch: &mut Chooser) -> Kind {
+pub fn other_engine(kind: Kind, ch: &mut Chooser) -> Kind {
     let mut engine = gen_engine(ch);
     if engine == kind.engine || engine == EngineKind::Lockstep {
         engine = if kind.engine == EngineKind::NoSimd {
@@ -70,7 +70,7 @@ fn other_engine(kind: Kind, ch: &mut Chooser) -> Kind {
     Kind { layer, engine }
 }
 
-fn lockstep_check(ctx: &mut Ctx, kind: Kind, what: &str) -> bool {
+pub fn lockstep_check(ctx: &mut Ctx, kind: Kind, what: &str) -> bool {
     if kind.engine != EngineKind::Lockstep {
         return false;
     }
@@ -79,6 +79,7 @@ fn lockstep_check(ctx: &mut Ctx, kind: Kind, what: &str) -> bool {
     ctx.count_n("lockstep.ifft_calls", log.calls[1]);
     ctx.count_n("lockstep.mul_calls", log.calls[2]);
     ctx.count_n("lockstep.eval_poly_calls", log.calls[3]);
+    ctx.count_n("lockstep.differences_only_in_contract_garbage_region", log.garbage_region_differences);
     ctx.stats.tuples.extend(log.tuples.iter().copied());
     if let Some(v) = log.violations.first() {
         let prim = v.split('(').next().unwrap_or("?").to_string();
@@ -93,7 +94,7 @@ fn lockstep_check(ctx: &mut Ctx, kind: Kind, what: &str) -> bool {
     false
 }
 
-fn alloc_check(ctx: &mut Ctx, kind: Kind, what: &str, rule: &'static str, acc: &AllocStats) -> bool {
+pub fn alloc_check(ctx: &mut Ctx, kind: Kind, what: &str, rule: &'static str, acc: &AllocStats) -> bool {
     if kind.engine == EngineKind::Lockstep {
         return false; // the lock-step engine itself allocates copies
     }
@@ -116,7 +117,7 @@ fn alloc_check(ctx: &mut Ctx, kind: Kind, what: &str, rule: &'static str, acc: &
     false
 }
 
-fn panic_props(op: &'static str, failed_ever: bool) -> Vec<&'static str> {
+pub fn panic_props(op: &'static str, failed_ever: bool) -> Vec<&'static str> {
     let mut p = vec!["C06"];
     if failed_ever {
         p.push("C07");
@@ -130,7 +131,7 @@ fn panic_props(op: &'static str, failed_ever: bool) -> Vec<&'static str> {
     p
 }
 
-fn report_panic(ctx: &mut Ctx, kind: &str, op: &'static str, call: &str, failed_ever: bool, msg: &str) -> bool {
+pub fn report_panic(ctx: &mut Ctx, kind: &str, op: &'static str, call: &str, failed_ever: bool, msg: &str) -> bool {
     ctx.viol(
         &panic_props(op, failed_ever),
         "no-panic",
@@ -140,7 +141,7 @@ fn report_panic(ctx: &mut Ctx, kind: &str, op: &'static str, call: &str, failed_
     )
 }
 
-fn verdict_props(op: &'static str, failed_ever: bool) -> Vec<&'static str> {
+pub fn verdict_props(op: &'static str, failed_ever: bool) -> Vec<&'static str> {
     let mut p = vec!["C06"];
     if failed_ever {
         p.push("C07");
@@ -913,7 +914,7 @@ impl DecState {
     }
 }
 
-fn weird_index(ch: &mut Chooser, count: usize) -> usize {
+pub fn weird_index(ch: &mut Chooser, count: usize) -> usize {
     match ch.pick("idx.weird", 9) {
         0 => count,
         1 => count + 1,
